@@ -3,7 +3,7 @@
 Correspondence of Model/C10.v (dispatch slice of MessageManager + the parts of TokenManager it talks to) with the real
 Context / TokenManager / MessageManager / Site / Resource objects under the virtual-time loop, real udp6 endpoint
 addresses (multicast flags, as_response_address) and a recording message interface."""
-import os, sys, socket, asyncio
+import os, sys, socket, asyncio, logging, warnings, itertools
 import fw
 from fw import gz, gbool, glist, gopt
 
@@ -39,7 +39,7 @@ def canon_remote(r):
 
 def canon_msg(m):
     """header-level view of a message: [type, code, mid, token bytes, option numbers, payload bytes]"""
-    return [int(m.mtype), int(m.code), m.mid, list(m.token), sorted(int(o.number) for o in m.opt.option_list()), list(m.payload)]
+    return [int(m.mtype), int(m.code), m.mid, list(m.token), sorted(int(o.number) for o in m.opt.option_list()), list(m.payload)[:4]]
 
 
 class Driver:
@@ -50,6 +50,7 @@ class Driver:
         import simloop, simnet
         self.aiocoap = aiocoap
         self.loop = simloop.VLoop()
+        logging.getLogger("coap").setLevel(logging.CRITICAL); logging.getLogger("coap-server").setLevel(logging.CRITICAL)
         simnet.patch_random(None, 0, 0)
         drv = self
         self.h = []; self.c = []
@@ -154,9 +155,364 @@ def run_script(events):
     return res
 
 
+# ====================================================================== Gallina side
+GMT = ["CON", "NON", "ACK", "RST"]
+def g_remote(peer, local): return "{| rpeer := %d; rlocal := %d |}" % (peer, local)
+def g_wire(w):
+    isreq = 1 <= w["c"] < 32
+    return "{| mtype := %s; code := %s; mid := %s; token := %s; nr := %s; obs := %s; path := %s; payload := [] |}" % (
+        GMT[w["t"]], gz(w["c"]), gz(w["mid"]), fw.gbytes(w["tok"]), gopt(w.get("nr"), gz), gopt(w.get("obs"), gz),
+        gz(w.get("path", 0) if isreq else -1))
+def g_event(ev):
+    k = ev[0]
+    if k == "recv": return "Recv %s %s" % (g_remote(ev[1], ev[2]), g_wire(ev[3]))
+    if k == "respond": return "Respond %s %s %s %s" % (gz(ev[1]), gz(ev[2]), gopt(ev[3], gz), fw.gbytes(ev[4]))
+    if k == "request": return "Request %s %s %s" % (gz(ev[1]), gopt(ev[2], lambda t: GMT[t]), gbool(ev[3]))
+    if k == "fire": return "Fire"
+    if k == "wait": return "Wait %s" % gz(ev[1])
+    raise ValueError(ev)
+
+def _opt(x):   # plain() of an option
+    return None if x == "None" else x["a"][0]
+def d_wire(m):
+    opts = ([6] if _opt(m["obs"]) is not None else []) + ([258] if _opt(m["nr"]) is not None else [])
+    return [GMT.index(m["mtype"]), m["code"], m["mid"], list(m["token"]), opts, list(m["payload"])[:4]]
+def d_outputs(t, outs):
+    r = {"t": t, "send": [], "h": [], "c": [], "x": []}
+    for o in outs:
+        c, a = (o, []) if isinstance(o, str) else (o["c"], o["a"])
+        if c == "Send": r["send"].append([a[0]["rpeer"], a[0]["rlocal"]] + d_wire(a[1]))
+        elif c == "StartHandler": r["h"].append(["start", a[0]])
+        elif c == "CancelHandler": r["h"].append(["cancel", a[0]])
+        elif c == "Deliver": r["c"].append(["deliver", a[0]] + d_wire(a[1]) + [a[2]])
+        elif c == "Fail": r["c"].append(["fail", a[0], a[1] if isinstance(a[1], str) else a[1]["c"]])
+        elif c == "LoopException": r["x"].append(a[0] if isinstance(a[0], str) else a[0]["c"])
+        else: raise ValueError("unknown output %r" % (o,))
+    return r
+
+
+# ====================================================================== event-script generators
+RESP_CODES = [69, 68, 65, 64, 95, 96, 127, 128, 132, 133, 159, 160, 165, 191]
+NR_VALUES = [None, None, 0, 2, 8, 16, 26, 24, 10, 1, 4, 32, 127, 255]
+BOUNDARY_WAITS = [0, 1, 50000, 99999, 100000, 100001, 150000]
+CODE_CLASSES = {"empty": [0], "request": [1, 2, 3, 4, 5, 7, 8, 31], "response": [64, 69, 132, 160, 191],
+                "reserved": [32, 45, 63, 192, 200, 223], "signalling": [224, 225, 255]}
+
+def W(t, c, mid, tok, path=0, nr=None, obs=None):
+    w = {"t": t, "c": c, "mid": mid, "tok": list(tok)}
+    if 1 <= c < 32: w["path"] = path
+    if nr is not None: w["nr"] = nr
+    if obs is not None: w["obs"] = obs
+    return w
+
+def own_token(q):   # token of the q-th client request (token counter starts at 0 in the harness)
+    n = q + 1; return list(n.to_bytes(8, "big").lstrip(b"\0"))
+
+def gen_table(rng):
+    """one cell of the reaction table, with a random context before and a random timing after"""
+    t = rng.randrange(4); cls = rng.choice(list(CODE_CLASSES)); c = rng.choice(CODE_CLASSES[cls])
+    known = rng.random() < 0.5; local = 2 if rng.random() < 0.3 else 1
+    peer = rng.choice([0, 0, 1, 100]); evs = []; nreq = 0
+    if rng.random() < 0.3:   # unrelated traffic first
+        evs.append(["request", rng.choice([1, 2]), rng.choice([None, 0, 1]), False]); nreq += 1
+    tok = [rng.randrange(256) for _ in range(rng.choice([0, 1, 1, 2, 8]))]
+    mid = rng.randrange(65536)
+    if known:
+        obs = rng.random() < 0.4
+        how = rng.choice(["same", "same", "mcast"]) if peer < 100 else "same"
+        evs.append(["request", 100 if how == "mcast" else peer, rng.choice([None, None, 1]) , obs]); tok = own_token(nreq); nreq += 1
+        if t in (ACK, RST) and rng.random() < 0.7: mid = rng.choice([0, 0, 1])     # the mid our request went out with
+    path = rng.choice([0, 0, 0, 1, 1, 2, 3]); nr = rng.choice(NR_VALUES)
+    obsopt = rng.choice([None, None, 7]) if cls == "response" else None
+    evs.append(["recv", peer, local, W(t, c, mid, tok, path, nr, obsopt)])
+    # epilogue: handler speed
+    for _ in range(rng.randrange(0, 4)):
+        k = rng.random()
+        if k < 0.35: evs.append(["wait", rng.choice(BOUNDARY_WAITS)])
+        elif k < 0.6: evs.append(["fire"])
+        elif k < 0.9: evs.append(["respond", 0, rng.choice(RESP_CODES), rng.choice([None, None, None, 2, 26, 0]), [rng.randrange(256)]])
+        else: evs.append(["recv", peer, local, W(t, c, mid, tok, path, nr, obsopt)])   # duplicate
+    if rng.random() < 0.5: evs += [["wait", 100001], ["fire"]]
+    return evs
+
+def gen_piggy(rng):
+    """CON/NON request to the slow resource; the handler answers at a chosen instant around EMPTY_ACK_DELAY"""
+    peer = rng.choice([0, 1, 100]); local = rng.choice([1, 1, 2]); t = rng.choice([CON, CON, CON, NON])
+    tok = [rng.randrange(256) for _ in range(rng.choice([0, 1, 2, 4]))]; mid = rng.randrange(65536)
+    nr = rng.choice(NR_VALUES); evs = [["recv", peer, local, W(t, rng.choice([1, 2, 4, 5]), mid, tok, 0, nr)]]
+    d = rng.choice(BOUNDARY_WAITS + [99999, 100000, 100000])
+    evs.append(["wait", d])
+    if rng.random() < 0.5: evs.append(["fire"])
+    if rng.random() < 0.15: evs.append(["recv", peer, local, evs[0][3]])    # duplicate before the answer
+    evs.append(["respond", 0, rng.choice(RESP_CODES), rng.choice([None, None, None, 0, 2, 8, 16, 26]), [rng.randrange(256)]])
+    for _ in range(rng.randrange(0, 3)):
+        k = rng.random()
+        if k < 0.4: evs.append(["fire"])
+        elif k < 0.6: evs.append(["wait", rng.choice([1, 100000, 2000000])])
+        elif k < 0.8: evs.append(["recv", peer, local, evs[0][3]])          # duplicate after the answer
+        else: evs.append(["recv", peer, 1, W(rng.choice([ACK, RST]), 0, rng.choice([0, 1]), [])])   # peer acks / resets the separate response
+    return evs
+
+def gen_scenario(rng):
+    """adversarial interleavings over small mid / token spaces: duplicates, token reuse (O3), overriding requests,
+    backlogged CONs, ACK/RST for our own messages, retransmission give-up"""
+    evs = []; slow = 0; nreq = 0
+    toks = [[], [1], [2], [1, 2]]
+    for _ in range(rng.randrange(4, 22)):
+        k = rng.random(); peer = rng.choice([0, 0, 1, 100]); local = 1 if rng.random() < 0.8 else 2
+        if k < 0.3:
+            t = rng.choice([CON, CON, NON]); c = rng.choice([1, 1, 2, 4, 9]); path = rng.choice([0, 0, 0, 1, 2, 3])
+            evs.append(["recv", peer, local, W(t, c, rng.randrange(1, 7), rng.choice(toks), path, rng.choice(NR_VALUES))])
+            if path == 0 and c <= 7: slow += 1
+        elif k < 0.4:
+            cls = rng.choice(list(CODE_CLASSES)); c = rng.choice(CODE_CLASSES[cls])
+            tok = own_token(rng.randrange(0, nreq + 1)) if rng.random() < 0.6 else rng.choice(toks)
+            evs.append(["recv", peer, local, W(rng.randrange(4), c, rng.randrange(0, 7), tok, rng.choice([0, 1, 2]), rng.choice(NR_VALUES), rng.choice([None, None, 3]))])
+        elif k < 0.5:
+            evs.append(["recv", peer, local, W(rng.choice([ACK, RST]), 0, rng.randrange(0, 6), [])])
+        elif k < 0.6:
+            evs.append(["request", peer, rng.choice([None, None, 0, 1]), rng.random() < 0.3]); nreq += 1
+        elif k < 0.75:
+            evs.append(["respond", rng.randrange(0, slow + 1), rng.choice(RESP_CODES), rng.choice([None, None, None, 2, 8, 26]), [rng.randrange(256)]])
+        elif k < 0.88:
+            evs.append(["fire"])
+        else:
+            evs.append(["wait", rng.choice(BOUNDARY_WAITS + [2000000, 4000000, 250000000])])
+    return evs
+
+def table_cells():
+    """the full finite table, deterministic: type x code class x token known x received on multicast x handler/No-Response"""
+    for t in range(4):
+        for cls, codes in CODE_CLASSES.items():
+            for c in (codes[0], codes[-1]):
+                for known in (False, True):
+                    for local in (1, 2):
+                        variants = [(0, None), (0, 26), (1, None), (1, 2), (2, 8), (3, 16)] if cls == "request" else [(0, None)]
+                        for path, nr in variants:
+                            evs = []; tok = [9, 9]; mid = 4242
+                            if known:
+                                evs.append(["request", 0, None, False]); tok = own_token(0)
+                                if t in (ACK, RST): mid = 0
+                            evs.append(["recv", 0, local, W(t, c, mid, tok, path, nr)])
+                            evs += [["wait", 99999], ["respond", 0, 69, None, [1]], ["wait", 1], ["fire"]]
+                            yield evs
+
+
+class C10(fw.Property):
+    id = "C10"
+    coq_props = "Props/C10.v"
+    gen_jobs = []
+    model_imports = ["Verif.Model.C10"]
+    quick_budget = 420
+    thorough_budget = 24000
+    design_ref = "DESIGN.md section 15 (C10)"
+    technique = ("Coq proof over an executable model of MessageManager's dispatch slice (cell-by-cell reaction table, invariants over all event histories) "
+                 "+ differential correspondence of the model with the real Context/TokenManager/MessageManager/Site stack under a virtual-time loop")
+    level_text = ("Theorems (closed under the global context) over a hand-written executable model of MessageManager's dispatch slice, the TokenManager parts it "
+                  "talks to and udp6's multicast flags: the full reaction table (type x code class x token known x received on multicast) for every state "
+                  "satisfying an invariant that is proved to hold along every event history; no CON to a multicast destination for every history; every ACK "
+                  "under a peer's message ID consumes one recorded piggy-back opportunity, hence a fresh CON request is acknowledged at most once for every "
+                  "history; send_message's piggy-back / empty-ACK / No-Response / NON-by-default / fresh-mid cells for every state. The model is tied to the code "
+                  "by running both on the same event scripts (every datagram, handler start/cancel, delivery, failure, loop exception and the clock compared).")
+    level_note = ("PARTIAL: 'acknowledged at least once' (the opportunity and its timer persist until answer or timer consumes them) is proved per step only, not "
+                  "over histories. Side condition O3 (token reused while the request is unacknowledged) is explicit in the theorems and refuted without it. "
+                  "Three open findings are modelled faithfully (refuted-witnesses in Props): error responses ignore No-Response; suppressed response to a CON request "
+                  "received on multicast raises TypeError and the request is never acknowledged; give-up while a multicast request is pending raises AttributeError "
+                  "in the loop. Trusted: Coq kernel + vm_compute; the hand-written model (validated by correspondence only); the virtual-time loop as ideal timer "
+                  "service; recording transport. Not modelled: shutdown branches, transport errors, server-side observe, blockwise, message-id wrap-around.")
+    rule = ("streams: table = one cell of type x code class x token known x unicast/multicast x handler/No-Response with random context and timing; "
+            "cells = the full table enumerated; piggy = request to a slow handler answered around EMPTY_ACK_DELAY (99999/100000/100001 us, timer before/after); "
+            "scenario = adversarial interleavings over small mid/token spaces (duplicates, token reuse, overriding requests, backlog, give-up). "
+            "Non-trivial = at least one datagram was sent by the stack; distinct by full script.")
+    trusted_base = ["hand-written Model/C10.v (validated by all four correspondence streams on every run)",
+                    "harness: virtual-time loop (ideal timers), recording message interface, random pinned (mid0 = token0 = 0, ACK_TIMEOUT factor 1.0)"]
+    assumptions = ["handlers answer once (no observe on the server side); shutdown and transport errors are C18's; blockwise not exercised",
+                   "the 16-bit message-id counter does not wrap within the lifetime of an exchange"]
+
+    def gen_cases(self, tier, rng, n):
+        if tier == "thorough":
+            for evs in table_cells(): yield "cells", evs
+        else:
+            cells = list(table_cells())
+            for evs in rng.sample(cells, 60): yield "cells", evs
+            n = max(0, n - 60)
+        for k in range(n):
+            m = k % 10
+            if m < 4: yield "table", gen_table(rng)
+            elif m < 7: yield "piggy", gen_piggy(rng)
+            else: yield "scenario", gen_scenario(rng)
+
+    def setup(self):
+        warnings.simplefilter("ignore")
+    def impl(self, stream, inp):
+        return run_script(inp)
+    def model(self, stream, inp):
+        return "snd (run (init 0 0) %s)" % glist([g_event(e) for e in inp])
+    def decode(self, stream, inp, parsed):
+        return [d_outputs(t, outs) for (t, outs) in fw.plain(parsed)]
+    def nontrivial(self, stream, inp, res):
+        if isinstance(res, list) and any(r["send"] for r in res): return fw.jdump(inp)
+        return None
+    def oracle(self, stream, inp, res):
+        return oracle(inp, res)
+
+
+# ====================================================================== the property, on the implementation's observable behaviour
+LIFETIME = 247000000
+def _cls(c): return "empty" if c == 0 else "request" if c < 32 else "response" if 64 <= c < 192 else "reserved" if c < 224 else "signalling"
+def _suppressed(nr, code): return nr is not None and 64 <= code < 192 and (nr & (1 << ((code >> 5) - 1))) != 0
+
+def oracle(evs, res):
+    if isinstance(res, dict): return ("C10:crash:" + str(res.get("where")), "implementation raised %s: %s" % (res.get("harness_exception"), res.get("text")))
+    for i, (ev, r) in enumerate(zip(evs, res)):
+        if r["x"]:
+            mc_pending = any(e[0] == "request" and e[1] >= 100 and e[2] != CON for e in evs[:i])
+            sig = "C10:loop-exception:" + r["x"][0] + (":give-up-while-multicast-request-pending" if ev[0] == "fire" and mc_pending and r["x"] == ["AttributeError"] else "")
+            return (sig, "event %d %r: exception %s reached the event loop" % (i, ev, r["x"]))
+        for s in r["send"]:
+            if s[0] >= 100 and s[2] == CON: return ("C10:con-to-multicast", "event %d %r: confirmable message %r sent to a multicast destination" % (i, ev, s))
+            if s[1] == 2: return ("C10:multicast-source-address", "event %d %r: %r sent with the multicast address it was received on as source" % (i, ev, s))
+    pending = {}      # q -> (peer or None, token, observe): oracle's own account of outstanding client requests
+    seen = {}         # (peer, mid) -> (time first seen, replies sent for it) for request-coded messages (deduplication, RFC 7252 4.5)
+    reqs = []         # fresh CON / NON requests
+    ambiguous = set()
+    nreq = 0
+    for i, (ev, r) in enumerate(zip(evs, res)):
+        now = r["t"]; replies = [s for s in r["send"] if s[2] in (ACK, RST)]
+        for c in r["c"]:
+            if c[0] == "fail": pending.pop(c[1], None)
+        if ev[0] == "request":
+            _, peer, mt, observe = ev; q = nreq; nreq += 1
+            failed = any(c[0] == "fail" and c[1] == q for c in r["c"])
+            if mt == CON and peer >= 100 and not failed: return ("C10:con-to-multicast-not-refused", "event %d: CON request to multicast was not refused" % i)
+            if not failed: pending[q] = (None if peer >= 100 else peer, own_token(q), observe)
+            if replies: return ("C10:unsolicited-reply", "event %d %r: %r" % (i, ev, replies))
+            continue
+        if ev[0] != "recv":
+            for s in replies:
+                if s[2] == RST: return ("C10:unsolicited-reset", "event %d %r: RST %r sent without an incoming message" % (i, ev, s))
+            continue
+        _, peer, local, w = ev; t, c, mid, tok = w["t"], w["c"], w["mid"], w["tok"]; cls = _cls(c)
+        where = "event %d: %s %s mid %d token %r from peer %d (%s)" % (i, MT[t], cls, mid, tok, peer, "multicast" if local == 2 else "unicast")
+        if cls == "request":
+            key = (peer, mid)
+            if key in ambiguous: reqs.append({"cut": i, "peer": peer, "mid": mid}); continue
+            if key in seen and now - seen[key][0] <= LIFETIME:
+                if now - seen[key][0] == LIFETIME:      # exactly at the boundary: whether the entry has expired depends on timer order; judge nothing
+                    ambiguous.add(key); reqs.append({"cut": i, "peer": peer, "mid": mid}); continue
+                if r["h"]: return ("C10:duplicate-processed-again", where + " is a duplicate but a handler was started")
+                if t != CON and r["send"]: return ("C10:duplicate-answered", where + " is a non-confirmable duplicate but %r was sent" % r["send"])
+                continue
+            seen[key] = (now, None)
+        if cls == "empty":
+            if t == CON:
+                if replies != [[peer, 0 if local == 2 else local, RST, 0, mid, [], [], []]] or len(r["send"]) != 1:
+                    return ("C10:ping-not-reset", where + ": expected exactly one RST, sent %r" % r["send"])
+            elif t == NON:
+                if r["send"] or r["h"] or r["c"]: return ("C10:unexpected-reaction:NON/empty", where + ": %r" % r)
+            elif replies: return ("C10:unexpected-reply:%s/empty" % MT[t], where + ": %r" % replies)
+        elif cls == "request":
+            if t in (CON, NON):
+                k = next((h[1] for h in r["h"] if h[0] == "start"), None)
+                reqs.append({"i": i, "peer": peer, "local": local, "mid": mid, "tok": tok, "t0": now, "k": k, "nr": w.get("nr"), "con": t == CON, "w": w})
+                if t == NON and any(s[4] == mid and s[0] == peer for s in replies): return ("C10:non-request-acked", where + ": %r" % replies)
+            elif replies or r["h"]: return ("C10:unexpected-reaction:%s/request" % MT[t], where + ": %r" % r)
+        elif cls == "response":
+            if t == RST:
+                if replies or any(c[0] == "deliver" for c in r["c"]): return ("C10:unexpected-reaction:RST/response", where + ": %r" % r)
+            else:
+                q = next((q for q, (p, tk, o) in pending.items() if tk == tok and p == peer), None)
+                if q is None: q = next((q for q, (p, tk, o) in pending.items() if tk == tok and p is None), None)
+                if q is not None:
+                    if not (pending[q][2] and w.get("obs") is not None): pending.pop(q)
+                    want = [[peer, 0 if local == 2 else local, ACK, 0, mid, [], [], []]] if t == CON else []
+                    if replies != want:
+                        return ("C10:con-response-not-acked" if t == CON else "C10:unexpected-reply:%s/response-known" % MT[t], where + " matches request %d: expected %r, sent %r" % (q, want, replies))
+                else:
+                    want = [[peer, local, RST, 0, mid, [], [], []]] if (t == CON and local != 2) else []
+                    if replies != want:
+                        sig = ("C10:unknown-con-response-not-reset" if local != 2 else "C10:reset-for-multicast") if t == CON else "C10:unexpected-reply:%s/response-unknown" % MT[t]
+                        return (sig, where + " matches no request: expected %r, sent %r" % (want, replies))
+        else:
+            if replies or r["h"] or any(c[0] == "deliver" for c in r["c"]) or (t in (CON, NON) and (r["send"] or r["c"])):
+                return ("C10:unexpected-reaction:%s/%s" % (MT[t], cls), where + ": %r" % r)
+    # ---- per request: acknowledged exactly once, piggy-backing, NON answers, No-Response
+    for R in reqs:
+        if "cut" in R: continue
+        i, peer, mid, tok = R["i"], R["peer"], R["mid"], R["tok"]
+        end = len(evs)
+        for R2 in reqs:            # the (peer, mid) pair is reused after EXCHANGE_LIFETIME: stop looking there
+            j = R2.get("cut", R2.get("i"))
+            if j > i and R2["peer"] == peer and R2["mid"] == mid: end = min(end, j)
+        where = "%s request (event %d) mid %d token %r from peer %d" % ("CON" if R["con"] else "NON", i, mid, tok, peer)
+        # side condition (DESIGN.md O3): the peer reuses the token in a new request while this one is not yet acknowledged
+        o3 = next((R2["i"] for R2 in reqs if "i" in R2 and R2["i"] > i and R2["peer"] == peer and R2["tok"] == tok), None)
+        fresh_req_events = set(R2["i"] for R2 in reqs if "i" in R2)
+        acks = [(j, res[j]["t"], s) for j in range(i, end) if j == i or evs[j][0] != "recv" or j in fresh_req_events
+                for s in res[j]["send"] if s[2] == ACK and s[0] == peer and s[4] == mid]
+        # this request itself reuses the token of an earlier, still unacknowledged CON request: its answer may travel in that one's ACK
+        tainted = any("i" in R0 and R0["i"] < i and R0["con"] and R0["peer"] == peer and R0["tok"] == tok and
+                      not any(s[2] == ACK and s[0] == peer and s[4] == R0["mid"] for j in range(R0["i"], i) for s in res[j]["send"]) for R0 in reqs)
+        if not R["con"]:
+            if acks: return ("C10:non-request-acked", where + " was acknowledged: %r" % (acks,))
+        else:
+            if len(acks) > 1: return ("C10:con-request-acked-twice", where + " got %d acknowledgements: %r" % (len(acks), acks))
+        # the handler's answer
+        cancelled = None; jr = None
+        if R["k"] is not None:
+            for j in range(i, len(evs)):
+                if ["cancel", R["k"]] in res[j]["h"]: cancelled = j; break
+                if evs[j][0] == "respond" and evs[j][1] == R["k"]: jr = j; break
+        answers = []    # (event index, code, effective No-Response, error path?)
+        if jr is not None: answers.append((jr, evs[jr][2], evs[jr][3] if evs[jr][3] is not None else R["nr"], False))
+        if R["k"] is None:      # answered by the library itself or by the fast resource, within the same event (the harness's site)
+            pth, c = R["w"].get("path"), R["w"]["c"]
+            if pth not in (0, 1, 3): answers.append((i, 132, R["nr"], True))                   # 4.04 Not Found
+            elif c > 7: answers.append((i, 133, R["nr"], True))                              # 4.05 Method Not Allowed
+            elif pth == 1: answers.append((i, {1: 69, 5: 69, 4: 66}.get(c, 68), R["nr"], False))   # resource.py default codes
+            elif pth == 3: answers.append((i, 160, R["nr"], True))                           # handler raised: 5.00
+        for (j, code, nr_eff, errpath) in answers:
+            sent = [s for s in res[j]["send"] if s[0] == peer and s[5] == tok and s[3] == code and 64 <= code < 192]
+            acked_before = [a for a in acks if a[0] < j or (a[0] == j and a[2][3] == 0 and res[j]["send"].index(a[2]) < (res[j]["send"].index(sent[0]) if sent else -1))]
+            if _suppressed(nr_eff, code):
+                lost = R["con"] and not acked_before and (o3 is None or o3 > j) and j < end and not any(a[0] == j and a[2][3] == 0 for a in acks)
+                if lost and R["local"] == 2:
+                    return ("C10:no-response-lost-ack:received-on-multicast", where + " (received on a multicast address): response suppressed, but no empty ACK sent: %r" % (res[j]["send"],))
+                if sent:
+                    return ("C10:no-response-ignored-on-error-response" if errpath else "C10:no-response-ignored",
+                            where + " carried No-Response %r but %r was sent" % (nr_eff, sent))
+                if lost: return ("C10:no-response-lost-ack", where + ": response suppressed, but no empty ACK sent either: %r" % (res[j]["send"],))
+                continue
+            if not (64 <= code < 192) or tainted: continue
+            for s in sent:
+                if not R["con"] and s[2] != NON: return ("C10:non-request-answered-not-non", where + " answered with %r" % (s,))
+                if R["con"] and s[2] == ACK and s[4] != mid: return ("C10:piggyback-wrong-mid", where + " answered with %r" % (s,))
+                if R["con"] and s[2] == ACK and res[j]["t"] > R["t0"] + EMPTY_ACK_DELAY:
+                    return ("C10:piggyback-after-empty-ack-delay", where + " answered with %r at %d us" % (s, res[j]["t"]))
+                if R["con"] and s[2] in (CON, NON) and not acked_before and (o3 is None or o3 > j):
+                    return ("C10:piggyback-missed", where + ": response %r sent separately although the request was not acknowledged yet" % (s,))
+                if s[2] == RST: return ("C10:response-in-reset", where + " answered with %r" % (s,))
+            if R["con"] and not acked_before and (o3 is None or o3 > j) and j < end and not any(s[2] == ACK and s[4] == mid for s in sent):
+                return ("C10:piggyback-missed", where + ": answer ready at %d us (request at %d us) but not piggy-backed: %r" % (res[j]["t"], R["t0"], res[j]["send"]))
+        if R["con"] and not acks and res[end - 1]["t"] > R["t0"] + EMPTY_ACK_DELAY and (o3 is None or o3 >= end or res[o3]["t"] > R["t0"] + EMPTY_ACK_DELAY):
+            return ("C10:con-request-never-acked", where + " received at %d us is still unacknowledged at %d us" % (R["t0"], res[end - 1]["t"]))
+        for (j, tj, s) in acks:
+            if o3 is not None and j >= o3: continue
+            if s[3] == 0:
+                if evs[j][0] == "fire":
+                    if tj < R["t0"] + EMPTY_ACK_DELAY: return ("C10:empty-ack-too-early", where + ": empty ACK at %d us, request at %d us" % (tj, R["t0"]))
+                elif not any(a[0] == j and _suppressed(a[2], a[1]) for a in answers):
+                    return ("C10:empty-ack-without-cause", where + ": empty ACK in event %d %r" % (j, evs[j]))
+            elif s[5] != tok or not (64 <= s[3] < 192):
+                return ("C10:piggyback-malformed", where + " acknowledged with %r" % (s,))
+    return None
+
+PROPERTY = C10()
+
 if __name__ == "__main__":
     import json
-    sys.path.insert(0, os.path.join(fw.VERIF, "harness"))
     fw.assert_repo()
     evs = json.loads(sys.argv[1])
-    for e, r in zip(evs, run_script(evs)): print(e, "\n   ->", r)
+    out = run_script(evs)
+    for e, r in zip(evs, out): print(e, "\n   ->", r)
+    print("oracle:", oracle(evs, out))
